@@ -59,14 +59,20 @@ def kv (k v : Bytes) : Bytes := u16 k.length ++ k ++ u16 v.length ++ v
 def Beh.name : Beh → String
   | .ok => "ok" | .err => "err" | .fatal => "fatal" | .unk => "unk" | .later => "later" | .nores => "nores"
 
+/-- `_error_code` (characters below U+0100 stand for single bytes: the declared fatal error has the non-ASCII
+    code `b"F\xe9"`) -/
 def Kind.code : Kind → String
-  | .ok => "" | .err => "E" | .fatal => "F" | .unk => "UNKNOWN" | .unhandled => "UNHANDLED"
+  | .ok => "" | .err => "E" | .fatal => "F\xe9" | .unk => "UNKNOWN" | .unhandled => "UNHANDLED"
+
+/-- `str(exception).encode("utf-8")` of the declared error raised for call `n` by the harness responders:
+    `"é" + str(n)` (the two bytes `c3 a9` first) for every third call, `str(n)` otherwise -/
+def declDesc (n : Nat) : Bytes := (if n % 3 = 2 then [0xc3, 0xa9] else []) ++ decOf n
 
 /-- `_error_description`: `str(exception)` for declared errors, the fixed texts otherwise -/
 def Kind.desc (n : Nat) : Kind → Bytes
   | .ok => []
-  | .err => decOf n
-  | .fatal => decOf n
+  | .err => declDesc n
+  | .fatal => declDesc n
   | .unk => ascii "Unknown Error"
   | .unhandled => ascii "Unhandled Command: b'nores'"
 
